@@ -146,7 +146,7 @@ class Session:
         if f in ("str", "expl"):
             return rng.choice("abcdef")
         if f == "int":
-            return rng.choice([0, 1, 2, 3, True, 1.0, 2.0, 4])
+            return rng.choice([0, 1, 2, 3, True, 1.0, 2.0, 4, -1, -1.0, 2**61 + 5])  # -1 and the big one: hash differs from the value
         if f == "tuple":
             return (rng.choice([1, 2]), rng.choice("ab"))
         if f == "dc":
